@@ -109,7 +109,7 @@ Section ModWorld.
         let '(w, k) := mod_loops a c s0 seid cp cf cq up uf uq in
         match k with
         | O => late_ok a c seid s0 w cp cf cq up uf uq rp rf rq
-        | S _ => early_ok s0 k
+        | S _ => early_ok s0 k w cp cf cq
         end
       end
     | _ => true
